@@ -69,8 +69,11 @@ use std::{
     time::Duration,
 };
 
-#[cfg(not(target_arch = "wasm32"))]
+#[cfg(all(not(target_arch = "wasm32"), not(deadpool_verif)))]
 use std::time::Instant;
+// The simulator owns the clock: instants are read from tokio's (paused) clock.
+#[cfg(all(not(target_arch = "wasm32"), deadpool_verif))]
+use tokio::time::Instant;
 
 use deadpool_runtime::Runtime;
 #[cfg(deadpool_verif)]
